@@ -1,5 +1,5 @@
 # C11 - The internal query rewrite preserves the meaning of the user's program
-import os, json, copy, collections
+import re, os, json, copy, collections
 from concurrent.futures import ThreadPoolExecutor
 import vlib
 from vlib import Inconclusive
@@ -132,6 +132,13 @@ def run(ctx):
     gpath = os.path.join(ctx.build, 'go_cases.ndjson')
     ctx.run([binp, 'gen', str(6000 if th else 1200), gpath], check=True, timeout=600)
     gocases = vlib.read_ndjson(gpath)
+    # the generator drops texts the embedded parser refuses: make sure that did not silently remove a whole syntactic family
+    fam = {'module directive': r'^module ', 'import': r'\bimport "', 'include': r'\binclude "', 'definition': r'\bdef ', 'reduce': r'\breduce ', 'foreach': r'\bforeach ',
+           'label': r'\blabel \$', 'try': r'\btry ', 'destructuring alternative': r'\?//', 'tail repl/help/slurp': r'\| (repl|help|slurp)'}
+    famn = {k: sum(1 for c in gocases if re.search(rx, c['text'], re.M)) for k, rx in fam.items()}
+    ctx.cov['go_grammar_families'] = famn
+    if min(famn.values()) < (5 if not th else 20):
+        raise Inconclusive('generated programs lack a syntactic family: %s' % {k: v for k, v in famn.items() if v < (5 if not th else 20)})
     allcases = cases + sims + gocases
     cpath = os.path.join(ctx.build, 'cases.ndjson')
     vlib.write_ndjson(cpath, allcases)
